@@ -286,8 +286,7 @@ func (w *c20World) stepThread(th *c20Thread) (spawnedRunning bool) {
 		w.startCall(th, func() {
 			// the dispatch of the main select (extracted: `takeabort queue:…`): the request takes
 			// the abort marker with it
-			w.m.queueReloadRequest(w.log, reloadRequest{isSuspend: k == "s", requestedAt: time.Now(),
-				abortConnections: takeAbortMarker()})
+			w.m.queueReloadRequest(w.log, c20MkRequest(k == "s", c20TakeAbort()))
 		})
 		w.await(th, nil)
 	} else if len(th.calls) > 0 {
@@ -802,7 +801,7 @@ func (w *c20World) do(a c20Action) string {
 	case "wstart":
 		select {
 		case req := <-w.m.reloadReqs:
-			w.wAbort = req.abortConnections
+			w.wAbort = c20RequestAbort(req)
 		default:
 			w.fail("wstart without request")
 		}
